@@ -67,6 +67,10 @@ ASSUMPTIONS = [
 
 ENTRIES = ["loader", "cliTest", "runner", "cliMain"]
 LONG = "x" * 100_000     # one argument / one value near the kernel's per-string limit (128 KiB)
+# text that looks like JSON-with-comments syntax or defeats a naive string scanner: URLs, comment openers / closers,
+# trailing backslashes, escaped quotes
+SCANNER_HOSTILE = ["C:\\data\\", "a\\", "http://host:8080/p?q=1#frag", "postgresql://u:p@db/x", "//", "/* c */", "*/", "/*",
+                   "# not a comment", 'say \"hi\"', '\\"', "'//'", "\\\\", "x // y", '"', "\\n"]
 NAMES = ["sqlite", "db", "my server", "sérveur", "a.b", "S", "echo-1", "服务", "x" * 40,
          # falsy-looking / type-twin / harvested from the code under test / format-hostile
          "0", "False", "null", "None", "7", "7.0", "true", "mcpServers", "command", "args", "env", "timeout",
@@ -78,7 +82,7 @@ ARGS = [
     "0", "false", "null", "None", "7", "7.0", "true", "[]", "{}", "%", "%s %d", "{0}", "{name}", "\r\n", "\u2028",
     "\u2029", "\u0085", "mcpServers", "command", "--config", "--server", "--verbose", "-v", "-c", "-s", "-l",
     "cancel scope", "json object must be str", "()", "() { :; }", "LOG_LEVEL=ERROR",
-]
+] + SCANNER_HOSTILE
 ENV_KEYS = ["FOO", "BAR_1", "PATH", "LOG_LEVEL", "HOME", "X", "lower_case", "MCP_TOKEN",
             # names that look like credentials (what log-scrubbing code looks for)
             "SERVICE_API_KEY", "GITHUB_TOKEN", "DB_PASSWORD", "CLIENT_SECRET", "AWS_SECRET_ACCESS_KEY", "passwd",
@@ -86,7 +90,7 @@ ENV_KEYS = ["FOO", "BAR_1", "PATH", "LOG_LEVEL", "HOME", "X", "lower_case", "MCP
             "LOGGING_LEVEL", "LOGNAME", "SHELL", "TERM", "USER", "APPDATA", "0", "env", "command", "%s"]
 ENV_VALS = ["sk-live-123", "***", "ghp_abcDEF", "", "1", "a b", "q\"'q", "=", "/usr/bin:/bin", "ERROR", "debug", "ü", "$HOME", "x" * 200,
             "0", "false", "null", "CRITICAL", "critical", "Error", "WARNING", "()", "() { :; }; x", "%s %d", "{0}",
-            "\r\n", "\u2028", "a\nb"]
+            "\r\n", "\u2028", "a\nb"] + SCANNER_HOSTILE
 TIMEOUTS = [None, 1, 30, 120, 0.5, 2.25, 7.0, "5", "2.5", "10.0", "0.125",
             0, 0.0, "0", "0.0", 7, "7", "7.0", 0.001, "1e3", "NULL"]     # "NULL": the member is present with value null
 SERVER_EXTRAS = [("description", "a server"), ("disabled", False), ("cwd", "/nonexistent"), ("transport", "stdio"),
@@ -538,6 +542,19 @@ class Entry(Suite):
                 if e in ("cliTest", "cliMain"):
                     c["verbose"] = lg_ == "debug"
                 out.append(c)
+        # several scanner-hostile strings in ONE file, in every order (args) and spread over args / env / extras
+        import itertools
+        four = ["C:\\data\\", "http://host/p", "/* c */", 'say \"q\" // x']
+        for i, perm in enumerate(itertools.permutations(four)):
+            dd = {"mcpServers": {"s": {"command": "@W0", "args": list(perm)}}}
+            out.append({"entry": ENTRIES[i % 4] if i % 6 == 0 else "loader", "file": "ok", "doc": dd, "names": ["s"], "expect": "valid",
+                        "style": ("ascii", "spaced", "crlf")[i % 3]})
+        for i, perm in enumerate(itertools.permutations(four[:3])):
+            dd = {"mcpServers": {"a": {"command": "@W0", "args": [perm[0]], "env": {"URL": perm[1], "DIR": perm[2]}, "note": four[3]},
+                                 "b": {"command": "@W1", "env": {"P": "a\\"}, "args": ["postgresql://u:p@h/db", "*/"]}},
+                  "comment": "// top /* level */"}
+            out.append({"entry": "runner" if i % 2 else "cliTest", "file": "ok", "doc": dd, "names": ["a", "b"] if i % 2 else ["a"],
+                        "expect": "valid", "style": ("compact", "pretty-utf8")[i % 2]})
         for st in range(13):                              # every hostile command path through every entry point
             out.append({"entry": ENTRIES[st % 4], "file": "ok", "doc": d1, "names": ["a", "b"] if ENTRIES[st % 4] == "runner" else ["b"],
                         "expect": "valid", "cmdstyle": st})
@@ -852,7 +869,7 @@ def gen_cli_case(rng):
         present[loc] = _cli_doc(names, w)
         w += len(names)
     abs_locs = [l for l in locs if l.startswith("abs:")]
-    intent_cfg = rng.choice(abs_locs + [None, None])
+    intent_cfg = rng.choice(abs_locs + [None, None, "abs:absent.json", "abs:no/such/dir/c.json"])   # the last two do not exist
     intent_srv = rng.choice(names + [None])
     toks = []
 
@@ -932,6 +949,14 @@ class Cli(Suite):
             {"argv": ["-c", "@ABS/custom.json"], "present": {"abs:custom.json": None},
              "intent": {"config": "abs:custom.json", "server": "sqlite", "list": False, "broken": None}},
         ]
+        # the NAMED configuration is missing while every default location holds a decoy that names a witness
+        decoys = {l: _cli_doc(["sqlite", "db"], 2 * i) for i, l in enumerate(CLI_DEFAULT_LOCS)}
+        for argv in (["--config", "@ABS/absent.json"], ["-c", "@ABS/absent.json", "-s", "db"], ["--config=@ABS/no/dir/x.json", "-v"],
+                     ["-s", "db", "--config", "server_config.json.bak"], ["-c", "@ABS/absent.json", "--list-servers"]):
+            cfg = next(a for a in argv if "json" in a).split("=")[-1]
+            out.append({"argv": argv, "present": decoys,
+                        "intent": {"config": "abs:" + cfg.replace("@ABS/", ""), "server": "db" if "db" in argv else "sqlite",
+                                   "list": "--list-servers" in argv, "broken": None}})
         listing = {"config": "abs:custom.json", "server": "sqlite", "list": True, "broken": None}
         out += [
             {"argv": ["-l", "-c", "@ABS/custom.json"], "present": {"abs:custom.json": None}, "intent": listing},          # not JSON
